@@ -38,6 +38,65 @@ def _alarm(signum, frame):
     raise InstanceTimeout()
 
 
+def _child(conn, args):
+    try:
+        conn.send(run_instance(args))
+    except BaseException as e:        # noqa
+        try:
+            conn.send({'instance': args[2], 'status': 'error', 'wall_s': 0.0, 'why': ['worker failed: %r' % (e,)]})
+        except Exception:
+            pass
+    finally:
+        conn.close()
+
+
+def run_pool(tasks, timeouts, opts, jobs):
+    """one forked process per instance, at most `jobs` at a time.  The in-process alarm (run_instance) ends an instance
+    at its time limit; a process that does not react (a C-level loop that never returns to the interpreter) is killed
+    60 s later and reported as inconclusive - never as a pass."""
+    ctx = mp.get_context('fork')
+    pending = list(tasks)
+    running = []          # (process, conn, args, start, hard_deadline)
+    while pending or running:
+        while pending and len(running) < max(1, jobs):
+            args = pending.pop(0)
+            pc, cc = ctx.Pipe(duplex=False)
+            p = ctx.Process(target=_child, args=(cc, args), daemon=True)
+            p.start()
+            cc.close()
+            limit = min(timeouts[args[2]], opts.get('cap_s', 10 ** 9)) * opts.get('time_scale', 1)
+            running.append((p, pc, args, time.time(), time.time() + limit + 60))
+        still = []
+        for p, pc, args, t0, dl in running:
+            r = None
+            if pc.poll(0):
+                try:
+                    r = pc.recv()
+                except EOFError:
+                    r = {'instance': args[2], 'status': 'error', 'wall_s': time.time() - t0, 'why': ['worker died without a result']}
+            elif not p.is_alive():
+                if pc.poll(0.2):
+                    try:
+                        r = pc.recv()
+                    except EOFError:
+                        r = None
+                if r is None:
+                    r = {'instance': args[2], 'status': 'error', 'wall_s': time.time() - t0, 'why': ['worker died without a result (exit code %s)' % p.exitcode]}
+            elif time.time() > dl:
+                p.kill()
+                r = {'instance': args[2], 'status': 'inconclusive', 'wall_s': time.time() - t0, 'paths': 0, 'obligations': 0, 'discharged': 0,
+                     'why': ['instance did not stop at its time limit and was killed after %ds' % int(time.time() - t0)]}
+            if r is None:
+                still.append((p, pc, args, t0, dl))
+            else:
+                p.join(timeout=5)
+                pc.close()
+                yield r
+        running = still
+        if running:
+            time.sleep(0.02)
+
+
 def run_instance(args):
     pid, tier, name, opts = args
     t0 = time.time()
@@ -176,15 +235,14 @@ def main(argv=None):
         return 2
     results = []
     extra = getattr(mod, 'extra_checks', None)
-    ctx = mp.get_context('fork')
-    with ctx.Pool(min(a.jobs, max(1, len(order))), maxtasksperchild=1) as pool:
-        it = pool.imap_unordered(run_instance, [(pid, tier, i.name, opts) for i in order])
-        for r in it:
-            results.append(r)
-            if a.verbose or r['status'] not in ('ok',):
-                print('[%s] %-60s %-12s paths=%s obs=%s/%s %.1fs %s' % (
-                    pid, r['instance'][:60], r['status'], r.get('paths'), r.get('discharged'), r.get('obligations'),
-                    r['wall_s'], '; '.join(map(str, r.get('why', [])))[:600]), flush=True)
+    def _report(r):
+        results.append(r)
+        if a.verbose or r['status'] not in ('ok',):
+            print('[%s] %-60s %-12s paths=%s obs=%s/%s %.1fs %s' % (
+                pid, r['instance'][:60], r['status'], r.get('paths'), r.get('discharged'), r.get('obligations'),
+                r['wall_s'], '; '.join(map(str, r.get('why', [])))[:600]), flush=True)
+    for r in run_pool([(pid, tier, i.name, opts) for i in order], {i.name: i.timeout for i in order}, opts, a.jobs):
+        _report(r)
     extra_res = []
     if extra is not None and not a.only:
         extra_res = extra(tier, seed)     # list of dicts: name, status (ok|cex|inconclusive), detail, counts
